@@ -200,6 +200,70 @@ Proof.
     rewrite (parse_L2 t V Hns). reflexivity.
 Qed.
 
+(* the remaining cross rejections: every format accepts only its own form, so the ORDER of
+   timeFormats does not matter *)
+Lemma L1_rejects_0 : forall t, valid t -> parse_layout L1 (render_time 0 t) = None.
+Proof.
+  intros t V. bools t V. unfold parse_layout, render_time. cbn [Z.eqb Pos.eqb]. rewrite elems_L1.
+  match goal with |- parse_elems ?n _ _ _ = _ => let k := eval vm_compute in n in change n with k end.
+  rewrite (parse_date _ _ t _ start_tm V).
+  psteps. rewrite Bh, Bmi, Bs.
+  rewrite frac_opt_d9 by (try lia; reflexivity). psteps. reflexivity.
+Qed.
+
+Lemma L2_rejects_01 : forall k t, valid t -> (k = 0 \/ k = 1) -> parse_layout L2 (render_time k t) = None.
+Proof.
+  intros k t V Hk. bools t V. unfold parse_layout, render_time. rewrite elems_L2.
+  destruct Hk as [-> | ->]; cbn [Z.eqb Pos.eqb];
+    (match goal with |- parse_elems ?n _ _ _ = _ => let k := eval vm_compute in n in change n with k end);
+    rewrite (parse_date _ _ t _ start_tm V); psteps; reflexivity.
+Qed.
+
+Definition layout_of (k : Z) : string := if Z.eqb k 0 then L0 else if Z.eqb k 1 then L1 else L2.
+
+Lemma own_layout : forall k t, valid t -> (k = 0 \/ k = 1 \/ (k = 2 /\ t_nsec t = 0)) ->
+  parse_layout (layout_of k) (render_time k t) = Some t.
+Proof.
+  intros k t V [-> | [-> | [-> Hns]]]; unfold layout_of; cbn [Z.eqb Pos.eqb].
+  - exact (parse_L01 0 t V (or_introl eq_refl)).
+  - exact (parse_L01 1 t V (or_intror eq_refl)).
+  - exact (parse_L2 t V Hns).
+Qed.
+
+Lemma other_layout : forall k l t, valid t -> (k = 0 \/ k = 1 \/ k = 2) ->
+  In l planet_formats -> l <> layout_of k -> parse_layout l (render_time k t) = None.
+Proof.
+  intros k l t V Hk Hl Hne. unfold planet_formats in Hl.
+  destruct Hl as [<- | [<- | [<- | []]]]; destruct Hk as [-> | [-> | ->]];
+    unfold layout_of in Hne; cbn [Z.eqb Pos.eqb] in Hne; try contradiction.
+  - exact (L0_rejects_1 t V).
+  - exact (L01_reject_2 L0 t V (or_introl eq_refl)).
+  - exact (L1_rejects_0 t V).
+  - exact (L01_reject_2 L1 t V (or_intror eq_refl)).
+  - exact (L2_rejects_01 0 t V (or_introl eq_refl)).
+  - exact (L2_rejects_01 1 t V (or_intror eq_refl)).
+Qed.
+
+(* decodeTime over ANY list made of the three planet formats that contains the right one *)
+Theorem decode_time_any : forall fmts k t, valid t -> (k = 0 \/ k = 1 \/ (k = 2 /\ t_nsec t = 0)) ->
+  (forall l, In l fmts -> In l planet_formats) -> In (layout_of k) fmts ->
+  decode_time fmts (render_time k t) = Some t.
+Proof.
+  induction fmts as [|l r IH]; intros k t V Hk Hsub Hin; [destruct Hin|].
+  cbn [decode_time].
+  destruct (string_dec l (layout_of k)) as [E|NE].
+  - subst l. rewrite (own_layout k t V Hk). reflexivity.
+  - rewrite (other_layout k l t V); [| |apply Hsub; left; reflexivity|exact NE].
+    + apply IH; [exact V|exact Hk|intros x Hx; apply Hsub; right; exact Hx|].
+      destruct Hin as [E|Hin]; [contradiction|exact Hin].
+    + destruct Hk as [H|[H|[H _]]]; auto.
+Qed.
+
+(* a list of time formats that reads the planet forms (planet_formats does: decode_time_planet;
+   any arrangement of the three does: decode_time_any) *)
+Definition reads_planet_times (fmts : list string) : Prop :=
+  forall k t, valid t -> (k = 0 \/ k = 1 \/ (k = 2 /\ t_nsec t = 0)) -> decode_time fmts (render_time k t) = Some t.
+
 (* ---------------------------------------------------------------- lines and fields *)
 Fixpoint nocharb (c : ascii) (s : string) : bool :=
   match s with EmptyString => true | String a r => negb (Ascii.eqb a c) && nocharb c r end.
@@ -397,10 +461,11 @@ Proof.
 Qed.
 
 (* decodeChangesetState reads the changeset state file of the planet server *)
-Theorem decode_changeset_planet : forall k seq t, (k = 0 \/ k = 1) -> valid t -> 0 <= seq < two64 ->
-  decode_changeset planet_formats nlc ":" 1 2 (render_changeset k seq t) = DOk (seq, t).
+Theorem decode_changeset_planet : forall fmts k seq t, reads_planet_times fmts ->
+  (k = 0 \/ k = 1) -> valid t -> 0 <= seq < two64 ->
+  decode_changeset fmts nlc ":" 1 2 (render_changeset k seq t) = DOk (seq, t).
 Proof.
-  intros k seq t Hk V Hseq. unfold decode_changeset, render_changeset.
+  intros fmts k seq t Hf Hk V Hseq. unfold decode_changeset, render_changeset.
   assert (E : "---" ++ nl ++ "last_run: " ++ render_time k t ++ nl ++ "sequence: " ++ dec_of seq ++ nl =
               "---" ++ String nlc (("last_run" ++ String ":" (String " " (render_time k t)))
                      ++ String nlc (("sequence" ++ String ":" (String " " (dec_of seq))) ++ String nlc ""))).
@@ -414,7 +479,7 @@ Proof.
   cbn [nth_error].
   rewrite split_app by reflexivity. cbn [tl]. rewrite join_split.
   rewrite trim_render by exact V.
-  rewrite decode_time_planet by (try exact V; destruct Hk as [-> | ->]; auto).
+  rewrite (Hf k t V) by (destruct Hk as [-> | ->]; auto).
   rewrite split_app by reflexivity.
   rewrite split_none by (apply nochar_sp_dec; reflexivity).
   rewrite trim_sp_digits by (try apply dec_of_digits; apply dec_of_nonempty).
@@ -461,25 +526,25 @@ Proof.
   rewrite Z.mod_small by (unfold two63, two64 in *; lia). reflexivity.
 Qed.
 
-Lemma step_time : forall st t, valid t -> t_nsec t = 0 ->
-  step_line planet_keys planet_formats "=" st ("timestamp" ++ String "=" (render_time 2 t)) =
+Lemma step_time : forall fmts st t, reads_planet_times fmts -> valid t -> t_nsec t = 0 ->
+  step_line planet_keys fmts "=" st ("timestamp" ++ String "=" (render_time 2 t)) =
   DOk {| i_seq := i_seq st; i_time := t; i_txn := i_txn st; i_txnq := i_txnq st |}.
 Proof.
-  intros st t V Hns. unfold step_line. rewrite split_app by reflexivity.
+  intros fmts st t Hf V Hns. unfold step_line. rewrite split_app by reflexivity.
   change (assoc_key "timestamp" planet_keys) with (Some FTime). cbv iota.
   rewrite split_none by (apply render2_no_eq; exact V).
   rewrite trim_render0 by exact V.
-  rewrite (decode_time_planet 2 t V (or_intror (or_intror (conj eq_refl Hns)))). reflexivity.
+  rewrite (Hf 2 t V (or_intror (or_intror (conj eq_refl Hns)))). reflexivity.
 Qed.
 
 (* decodeIntervalState reads the minute/hour/day state file of the planet server *)
-Theorem decode_interval_planet : forall comment seq t txn txnq ready active,
-  valid t -> t_nsec t = 0 -> 0 <= seq < two63 -> 0 <= txn < two63 -> 0 <= txnq < two63 ->
+Theorem decode_interval_planet : forall fmts comment seq t txn txnq ready active,
+  reads_planet_times fmts -> valid t -> t_nsec t = 0 -> 0 <= seq < two63 -> 0 <= txn < two63 -> 0 <= txnq < two63 ->
   nocharb nlc comment = true -> nocharb nlc ready = true -> nocharb nlc active = true ->
-  decode_interval planet_keys planet_formats nlc "=" (render_interval comment seq t txn txnq ready active)
+  decode_interval planet_keys fmts nlc "=" (render_interval comment seq t txn txnq ready active)
   = DOk {| i_seq := seq; i_time := t; i_txn := txn; i_txnq := txnq |}.
 Proof.
-  intros comment seq t txn txnq ready active V Hns Hseq Htxn Htxnq Hc Hr Ha.
+  intros fmts comment seq t txn txnq ready active Hf V Hns Hseq Htxn Htxnq Hc Hr Ha.
   unfold decode_interval, render_interval.
   assert (E : "#" ++ comment ++ nl ++ "txnMaxQueried=" ++ dec_of txnq ++ nl ++ "sequenceNumber=" ++ dec_of seq ++ nl
                 ++ "timestamp=" ++ render_time 2 t ++ nl ++ "txnReadyList=" ++ ready ++ nl
@@ -505,7 +570,7 @@ Proof.
   rewrite step_comment.
   rewrite (step_int _ _ "txnMaxQueried" FTxnMaxQ txnq) by (try reflexivity; exact Htxnq).
   rewrite (step_int _ _ "sequenceNumber" FSeq seq) by (try reflexivity; exact Hseq).
-  rewrite step_time by assumption.
+  rewrite (step_time fmts _ t Hf V Hns).
   rewrite step_unknown by reflexivity.
   rewrite (step_int _ _ "txnMax" FTxnMax txn) by (try reflexivity; exact Htxn).
   rewrite step_unknown by reflexivity.
